@@ -234,7 +234,13 @@ func runInventory(c *Ctx, idPrefix string, roots []*ssa.Function, reasoned map[s
 			if e.fn == FuncKey(s.Fn) {
 				return e.key
 			}
-			if P.WithinOnly(s.Fn, func(f *ssa.Function) bool { return FuncKey(f) == e.fn }, 3) {
+			// the same method with a value receiver instead of a pointer receiver (or the reverse)
+			if strings.Replace(e.fn, "(*", "(", 1) == strings.Replace(FuncKey(s.Fn), "(*", "(", 1) {
+				return e.key
+			}
+			if P.WithinOnly(s.Fn, func(f *ssa.Function) bool {
+				return FuncKey(f) == e.fn || strings.Replace(e.fn, "(*", "(", 1) == strings.Replace(FuncKey(f), "(*", "(", 1)
+			}, 3) {
 				return e.key
 			}
 			// a reason about what a package is handed (the config pointer the registry passes to the decoding closure)
